@@ -439,7 +439,16 @@ impl Check for Check20 {
         Ok((out, if keep { Some(serde_json::to_value(&p).unwrap()) } else { None }))
     }
     fn fixed_plans(&self, _tier: Tier) -> Vec<Value> {
-        vec![serde_json::to_value(Plan20 { bits: 2, reqs: vec![], deliveries: vec![], sweep: true }).unwrap()]
+        let mut out = vec![serde_json::to_value(Plan20 { bits: 2, reqs: vec![], deliveries: vec![], sweep: true }).unwrap()];
+        // size limits of the constructor / decoder: prefix lengths around 2^16 (level 65535 is the
+        // largest admissible one), single prefixes and pairs
+        for l in [65_534usize, 65_535, 65_536, 65_537] {
+            let a = "0".repeat(l);
+            let mut b = "0".repeat(l - 1);
+            b.push('1');
+            out.push(serde_json::to_value(Plan20 { bits: 17, reqs: vec![Req::Prefixes { p: vec![a.clone()] }, Req::Prefixes { p: vec![a, b] }], deliveries: vec![(0, 0), (1, 1), (0, 1)], sweep: false }).unwrap());
+        }
+        out
     }
     fn shrink(&self, plan: &Value) -> Vec<Value> {
         let Ok(p) = serde_json::from_value::<Plan20>(plan.clone()) else { return Vec::new() };
